@@ -158,13 +158,18 @@ def check_symbol_duplicates(ctx: Check, tree: Tree) -> None:
         ctx.verdict(len(sigs) == 1, "R-DEFAULTS", f"{BLD}::symbol `{skel}`", tree.loc(members[0]["node"]),
                     f"symbol `{skel}`: {len(members)} construction sites in builder.py agree in kind and assumptions (equal-named parameters are one parameter)",
                     None if len(sigs) == 1 else [{"fn": m["fn"], "assumptions": m["assumptions"]} for m in members])
-    # every site builds the identifier the same way
+    # every site builds the identifier the same way: the placeholder of each symbol name
     idents = set()
-    for q, fn in tree.funcs.items():
-        if q.startswith(BLD + "::"):
-            for node in walk_function(fn.node, nested=False):
-                if isinstance(node, ast.Assign) and isinstance(node.targets[0], ast.Name) and node.targets[0].id in {"identifier", "res_identifier"}:
-                    idents.add(unparse(node.value))
+    for m_ in sites:
+        fn = tree.funcs[m_["fn"]]
+        rd = RD(fn.node)
+        name_node = m_["node"].args[0]
+        for ph in [v.value for v in ast.walk(name_node) if isinstance(v, ast.FormattedValue)]:
+            if isinstance(ph, ast.Name):
+                vals = {unparse(d.value) for d in rd.reaching(ph) if d.value is not None}
+                idents |= vals or {ph.id}
+            else:
+                idents.add(unparse(ph))
     ctx.verdict(len(idents) == 1, "R-DEFAULTS", f"{BLD}::identifier", BLD.replace(".", "/"), f"the resonance identifier is built the same way at every site: {sorted(idents)}")
 
 
@@ -212,17 +217,25 @@ def check_dispatch(ctx: Check, tree: Tree) -> None:
         else:
             loop = loops[0]
             var = unparse(loop.target)
-            inl_txt = unparse(loop)
+            lrd = RD(fn)
             tests = [n for n in ast.walk(loop) if isinstance(n, ast.If)]
             if not tests:
                 problems.append("no name comparison")
             else:
                 t = tests[0]
-                rd_txt = unparse(t.test)
-                src = inl_txt
-                if not (f"{var}.parent.particle" in src and ".name ==" in rd_txt.replace("  ", " ")):
-                    problems.append(f"compares `{rd_txt}`: selection is not by the parent particle's name")
-                if any(x in rd_txt + src for x in (f"{var}.children",)):
+                cmp_ = t.test
+                sides = []
+                if isinstance(cmp_, ast.Compare) and len(cmp_.ops) == 1 and isinstance(cmp_.ops[0], ast.Eq):
+                    for side in (cmp_.left, cmp_.comparators[0]):
+                        txt = unparse(side)
+                        for d in lrd.closure(lrd.uses(side)):
+                            if d.value is not None:
+                                txt += " <- " + unparse(d.value)
+                        sides.append(txt)
+                joined = " | ".join(sides)
+                if not (f"{var}.parent.particle" in joined and ".name" in joined):
+                    problems.append(f"compares `{unparse(cmp_)}`: selection is not by the parent particle's name")
+                if f"{var}.children" in joined:
                     problems.append("selection looks at the children")
                 st = [n for n in ast.walk(t) if isinstance(n, ast.Assign) and isinstance(n.targets[0], ast.Subscript)]
                 if not st or unparse(st[0].targets[0].slice) != var:
@@ -241,22 +254,34 @@ def check_dispatch(ctx: Check, tree: Tree) -> None:
         ctx.verdict(ok, "R-DISPATCH", f"{cls.qual}.assign[tuple]::creates-decay", tree.loc(fn), "assign[(transition, node)] converts to the TwoBodyDecay of exactly that node")
     # __init__ registers every node of every transition with the neutral builder
     init = cls.methods["__init__"]
-    t = unparse(init.node)
-    ok = "for node_id in transition.topology.nodes" in t and "TwoBodyDecay.from_transition(transition, node_id)" in t and "= create_non_dynamic" in t
+    from ..canon import canon
+
+    ok = False
+    for outer_loop in [n for n in walk_function(init.node) if isinstance(n, ast.For)]:
+        t = canon(outer_loop, init.node)
+        if "for _1 in _0.topology.nodes" in t and "TwoBodyDecay.from_transition(_0, _1)" in t and "] = create_non_dynamic" in t and "continue" not in t and "break" not in t:
+            ok = True
     ctx.verdict(ok, "R-DISPATCH", f"{cls.qual}.__init__::all-nodes", tree.loc(init.node), "every node of every transition starts with create_non_dynamic")
 
 
 def check_same_decay(ctx: Check, tree: Tree) -> None:
     fn = tree.func(f"{HEL}::HelicityAmplitudeBuilder.__formulate_dynamics")
     inl = Inliner(fn.node)
-    calls = [c for c in walk_function(fn.node) if isinstance(c, ast.Call) and isinstance(c.func, ast.Name) and c.func.id == "builder"]
+    frd = RD(fn.node)
+    # the builder call: a call of a local that was looked up in self.dynamics[...]
+    calls = []
+    for c in walk_function(fn.node):
+        if isinstance(c, ast.Call) and isinstance(c.func, ast.Name):
+            defs = frd.reaching(c.func)
+            if defs and all(d.value is not None and unparse(d.value).startswith("self.dynamics[") for d in defs):
+                calls.append(c)
     if len(calls) != 1:
-        raise AnalysisError("__formulate_dynamics: expected one builder(...) call")
+        raise AnalysisError("__formulate_dynamics: expected one call of the builder looked up in self.dynamics[...]")
     c = calls[0]
     a0 = unparse(inl.expr(c.args[0])).replace(" ", "")
     a1 = unparse(inl.expr(c.args[1])).replace(" ", "")
     decay = "TwoBodyDecay.from_transition(transition,node_id)"
-    b = next(d for d in RD(fn.node).defs if d.name == "builder" and d.value is not None)
+    b = next(iter(frd.reaching(c.func)))
     lookup = unparse(inl.expr(b.value)).replace(" ", "")
     problems = []
     if a0 != f"{decay}.parent.particle":
@@ -267,8 +292,17 @@ def check_same_decay(ctx: Check, tree: Tree) -> None:
         problems.append(f"builder looked up with {lookup}")
     ctx.verdict(not problems, "R-SAMEDECAY", f"{fn.qual}::same-node", tree.loc(c),
                 "__formulate_dynamics: builder = dynamics[decay(transition, node)], called with that decay's parent particle and the variable set of the same (transition, node)", problems or None)
-    rets = [unparse(r.value) for r in walk_function(fn.node) if isinstance(r, ast.Return)]
-    ok = set(rets) == {"sp.S.One", "expression"}
+    rets = [r for r in walk_function(fn.node) if isinstance(r, ast.Return)]
+    kinds = set()
+    for r in rets:
+        if unparse(r.value) == "sp.S.One":
+            kinds.add("one")
+        elif isinstance(r.value, ast.Name) and any(d.index == 0 and d.value is c for d in frd.reaching(r.value)):
+            kinds.add("expression")
+        else:
+            kinds.add(unparse(r.value))
+    ok = kinds == {"one", "expression"}
+    rets = sorted(kinds)
     ctx.verdict(ok, "R-SAMEDECAY", f"{fn.qual}::returns", tree.loc(fn.node), "returns the builder's expression (or 1 for an unknown decay)", None if ok else rets)
     # the expression multiplies the Wigner-D of the same node
     pd = tree.func(f"{HEL}::HelicityAmplitudeBuilder._formulate_partial_decay")
